@@ -500,7 +500,7 @@ func runC10(cx *CheckCtx) {
 						alive = true
 					}
 				}
-				if f.kind == KB && !f.pos && f.A.Op == "ret" && f.A.Name == fq(nnsParentExpiredFn(cx)) {
+				if f.kind == KB && !f.pos && a.resultSite(f.A, fq(nnsParentExpiredFn(cx))) != nil {
 					parents = true
 				}
 			}
@@ -524,7 +524,17 @@ func runC10(cx *CheckCtx) {
 						}
 					}
 					if !isExit || len(b.Preds) != 1 {
-						ok = false
+						// or a fast path taken only when the loop would not run at all
+						empty := false
+						pa := cx.analyze(&Query{Name: "std", Root: fn})
+						for _, h := range fn.Blocks {
+							if isLoopHeader(h) && loopEmptyAt(pa, pa.tb.root, h, pa.in[Node{pa.tb.root, b, 0}]) {
+								empty = true
+							}
+						}
+						if !empty {
+							ok = false
+						}
 					}
 				}
 			}
@@ -655,12 +665,11 @@ func runC11(cx *CheckCtx) {
 					}
 				}
 			}
-			if m.GoName == "UpdateSOA" && subj.Op == "ret" && subj.Name == fq(nnsTokenIDFromNameFn(cx)) {
+			if cs := a.resultSite(subj, fq(nnsTokenIDFromNameFn(cx))); m.GoName == "UpdateSOA" && cs != nil {
 				// the record is keyed by tokenIDFromName(name); UpdateSOA has just read the name's own
 				// record alive (getNameState(name)), so the longest registered suffix found by
 				// tokenIDFromName in its first iteration is name itself
-				in := a.tb.insts[subj.Inst]
-				if cs := a.siteIdx[siteKey{in.ctx, in.ins}]; cs != nil && len(cs.Args) == 2 {
+				if len(cs.Args) == 2 {
 					subj = cs.Args[1]
 				}
 			}
@@ -1002,7 +1011,7 @@ func runC12(cx *CheckCtx) {
 		ok := false
 		if namePut != nil {
 			for _, f := range a.unitFactsRaw(namePut.In) {
-				if f.kind == KEqC && f.pos && f.C == 0 && f.A.Op == "len" && f.A.Args[0].Op == "ret" && f.A.Args[0].Name == fq(conflictFn) {
+				if f.kind == KEqC && f.pos && f.C == 0 && f.A.Op == "len" && a.resultSite(f.A.Args[0], fq(conflictFn)) != nil {
 					ok = true
 				}
 			}
@@ -1062,7 +1071,7 @@ func runC12(cx *CheckCtx) {
 							}
 						}
 					}
-					if f.kind == KB && !f.pos && f.A.Op == "ret" && f.A.Name == pexp {
+					if f.kind == KB && !f.pos && a.resultSite(f.A, pexp) != nil {
 						parents = true
 					}
 				}
@@ -1370,9 +1379,8 @@ func runC18(cx *CheckCtx) {
 			case "safeSplitAndCheck":
 				for id := int32(1); id < int32(len(a.lt.lits)); id++ {
 					l := a.lt.lits[id]
-					if l.Kind == KEqC && l.C == 0 && l.A.Op == "len" && l.A.Args[0].Op == "ret" && l.A.Args[0].Name == safeName {
-						in := tb.insts[l.A.Args[0].Inst]
-						if cs := a.siteIdx[siteKey{in.ctx, in.ins}]; cs != nil && cs.Args[0] == data && st.refutes(a.lt, []int32{id}) {
+					if l.Kind == KEqC && l.C == 0 && l.A.Op == "len" {
+						if cs := a.resultSite(l.A.Args[0], safeName); cs != nil && cs.Args[0] == data && st.refutes(a.lt, []int32{id}) {
 							good = true
 						}
 					}
@@ -1380,9 +1388,8 @@ func runC18(cx *CheckCtx) {
 			default:
 				for id := int32(1); id < int32(len(a.lt.lits)); id++ {
 					l := a.lt.lits[id]
-					if l.Kind == KB && l.A.Op == "ret" && l.A.Name == valFn[vname] {
-						in := tb.insts[l.A.Inst]
-						if cs := a.siteIdx[siteKey{in.ctx, in.ins}]; cs != nil && cs.Args[0] == data && st.refutes(a.lt, []int32{id}) {
+					if l.Kind == KB {
+						if cs := a.resultSite(l.A, valFn[vname]); cs != nil && cs.Args[0] == data && st.refutes(a.lt, []int32{id}) {
 							good = true
 						}
 					}
@@ -1479,12 +1486,8 @@ func nnsSafeSplitFn(cx *CheckCtx) *ssa.Function {
 func validatedAt(a *Analysis, st *CNF, nm *Term, safeName string) bool {
 	for _, f := range a.unitFactsRaw(st) {
 		if f.kind == KEqC && f.pos && f.C == 0 && f.A.Op == "len" {
-			x := f.A.Args[0]
-			if x.Op == "ret" && x.Name == safeName {
-				in := a.tb.insts[x.Inst]
-				if cs := a.siteIdx[siteKey{in.ctx, in.ins}]; cs != nil && len(cs.Args) == 1 && cs.Args[0] == nm {
-					return true
-				}
+			if cs := a.resultSite(f.A.Args[0], safeName); cs != nil && len(cs.Args) == 1 && cs.Args[0] == nm {
+				return true
 			}
 		}
 	}
